@@ -280,4 +280,11 @@ def i6(ctx):
     ctx.floor("allocating return paths", n, 1)
 
 
-RULES = [i1, i2, i3, i4, i5, i6]
+
+
+@rule("P2", doc="touch-after-change (shared with C02): a class-level change re-queues the class's usages, otherwise parents keep stale shapes in the hashcons")
+def p2(ctx):
+    c02.p2(ctx)
+
+
+RULES = [i1, i2, i3, i4, i5, i6, p2]
